@@ -51,16 +51,15 @@ def run(ctx):
     ctx.set(wall_part_a_s=round(t3 - t2, 1), wall_part_b_s=round(t2 - t1, 1),
             wall_part_c_s=round(t1 - t0, 1))
     ctx.set(exhaustive=True,
-            deviation_bound='per scenario: 2 (one request, concurrent '
-                            'streams), %s (two requests), 1 (three requests)'
-                            % ('1' if ctx.quick else '2'),
             rule='(a) every schedule of the worker threads and per-request '
                  'processes that deviates from the default scheduler at most '
                  '`bound` times, for each of %d scenarios (worker size x '
                  'request demands x payload outcome ok / failure / raise / '
                  'hang+timeout / finish near timeout / process dies / fork '
                  'fails x 1-3 requests, one or two request streams); states = '
-                 'scheduling steps, traces = complete executions.  (b) %d '
+                 'scheduling steps, traces = complete executions; the '
+                 'deviation bound per scenario family is in '
+                 'deviation_bounds_by_family.  (b) %d '
                  'cases: every bulk of <= 3 requests over all modes and entry '
                  'points, every result bulk of <= 3 over the exit-code '
                  'alphabet, every return order and bulk split of <= 3 round '
